@@ -24,7 +24,7 @@ CHECKS = {
  "C12": sym("TLC emits the statement's loss formulas (clip = max(l, min(x, u)), clipping bounds as named constants) for every batch / class size of the grid; the harness evaluates them for predictions and targets drawn from 0, 1, <0, >1, +-1e6 and within 1e-12 of both clipping bounds, tracked and untracked, and also requires a finite non-negative rank-0 result.", "DESIGN.md 3/C12"),
  "C13": sym("Expected gradients are the symbolic derivative of the loss definitions (TLC proves on rational instances that they equal 2(p-t)/N, ((1-t)/(1-p)-t/p)/N, -(t/p)/N and 0 where clipped). The prediction is a leaf, an interior tensor of a small graph, or the output of FC->activation; the gradient of the prediction and of everything upstream is compared, untracked inputs must get none." + KF, "DESIGN.md 3/C13"),
  "C14": sym("TLC emits the defining formula of each activation for every shape of the grid, every Softmax dim (and nil configs), every LeakyRelu slope, plus Softmax's sum along dim; the harness compares every element for inputs including 0, -0 and |x| up to 700 and requires Softmax >= 0; invalid dims must be rejected." + BIG + "", "DESIGN.md 3/C14"),
- "C15": sym("Expected gradients are the symbolic derivative of the activation definitions (TLC checks the Softmax closed form p_i(g_i - sum_j p_j g_j), s(1-s), 1-tanh^2); input as leaf and as interior tensor; at exactly 0 Relu/LeakyRelu accept any value between the one-sided derivatives (both one-sided readings are evaluated)." + KF, "DESIGN.md 3/C15"),
+ "C15": sym("Expected gradients are the symbolic derivative of the activation definitions (TLC checks the Softmax closed form p_i(g_i - sum_j p_j g_j), s(1-s); Tanh as 1/cosh^2 = 1-tanh^2); input as leaf and as interior tensor; at exactly 0 Relu/LeakyRelu accept any value between the one-sided derivatives (both one-sided readings are evaluated)." + KF, "DESIGN.md 3/C15"),
  "C16": sym("TLC emits y[b][o] = W[o]*sum_d x[b][d] + B[o] and its derivatives for all batch/feature/output sizes of the grid with distinct symbols, and checks on the spec that the library's composition computes that value; the harness replaces the layer's parameters through the Weights() pointers before Forward (so a Forward not reading through them fails) and compares values and gradients; spec/FCParams.tla enumerates EVERY history of Weights() calls, replacements (through old pointers, fresh pointers, the exported field) and Forward calls up to 5 (6) actions and each Forward is replayed." + KF, "DESIGN.md 3/C16 and 7.8"),
  "C17": sym("TLC emits w - lr*g for every shape and learning rate of the grid (nil config, 0, negative), g being the derivative of the back-propagated graph; the harness calls Update through the pointer and checks the new tensor element-wise, that the pointer target was replaced, that the old tensor object, its values and its gradient are bit-for-bit unchanged, and that a tensor without gradient is rejected with nothing replaced." + BIG + "", "DESIGN.md 3/C17"),
 }
